@@ -21,10 +21,10 @@ def validate(ctx, tp, name):
     return res[0]
 
 
-def stress(ctx, name, G, N, seed, mode, race=False):
+def stress(ctx, name, G, N, seed, mode, race=False, env=None):
     tp = os.path.join(ctx.scratch, "pool-%s.ndjson" % name)
     p = ctx.run_worker(["pool-stress", tp, str(G), str(N), str(seed), mode], testing=True, race=race, timeout=1200, check=False,
-                       env={"GORACE": "halt_on_error=0 exitcode=66"})
+                       env=dict({"GORACE": "halt_on_error=0 exitcode=66"}, **(env or {})))
     racy = "DATA RACE" in p.stderr
     if p.returncode not in (0, 66) or (p.returncode == 66 and not racy):
         # the worker died.  If the Go runtime reports a panic / fatal error whose goroutine was inside the
@@ -72,13 +72,17 @@ def run(ctx, replay):
                 # the rarely used flags on (package name of the caller, date, inherited attributes): a fresh process,
                 # so that whatever those paths initialise lazily is initialised by overlapping calls
                 dict(name="race-rare", G=16, N=40 if quick else 300, seed=s * 11 + 10, mode="free-slow+rare", race=True),
-                dict(name="rare", G=8, N=40 if quick else 300, seed=s * 11 + 12, mode="trace+rare", race=False)]
+                dict(name="rare", G=8, N=40 if quick else 300, seed=s * 11 + 12, mode="trace+rare", race=False),
+                # 48 goroutines of which 40 are inside ONE logger's destination at the same moment
+                dict(name="pileup", G=48, N=3 if quick else 20, seed=s * 11 + 13, mode="pileup", race=False),
+                # a process that starts with a single processor: calls still overlap (the destination yields)
+                dict(name="uniproc", G=8, N=40 if quick else 300, seed=s * 11 + 14, mode="slow", race=False, env={"GOMAXPROCS": "1"})]
         if not quick:
             runs += [dict(name="trace2", G=64, N=100, seed=s * 11 + 5, mode="trace", race=False),
                      dict(name="race-free2", G=32, N=300, seed=s * 11 + 6, mode="free", race=True),
                      dict(name="race-free3", G=3, N=2000, seed=s * 11 + 7, mode="free", race=True)]
     for rn in runs:
-        tp, racy, err = stress(ctx, rn["name"], rn["G"], rn["N"], rn["seed"], rn["mode"], race=rn["race"])
+        tp, racy, err = stress(ctx, rn["name"], rn["G"], rn["N"], rn["seed"], rn["mode"], race=rn["race"], env=rn.get("env"))
         if tp is None:          # crashed inside the library: reported, nothing to validate
             continue
         rows = read_ndjson(tp)
